@@ -543,10 +543,21 @@ def standard_check(ctx, std):
         if sig in reported_tags or nviol >= 5:
             continue
         reported_tags.add(sig)
-        nviol += 1
         small = shrink_case(ctx, std, c, tag, model_bin)
-        txt = small.text() + "# property %s violated on the implementation: monitor clause '%s' at operation %d\n" % (pid, tag, pos)
         i2, m2, v2, f2, _ = _eval_cases(ctx, std, [small], model_bin, res)
+        sv = v2.get(small.name)
+        if sv is not None and first_diff(i2[small.name][:sv[0] + 1], m2[small.name][:sv[0] + 1]) is None:
+            # the minimal failing trace is reproduced exactly by the model: if it is a listed finding it is
+            # that finding (found through a longer trace that also contained an unrelated disagreement,
+            # which is reported separately as broken correspondence below)
+            kf = match_known(findings, sv[1], small, sv[0])
+            if kf:
+                line = "%s [%s]" % (kf.get("what", tag), kf.get("id", tag))
+                if line not in res.known:
+                    res.known.append(line)
+                continue
+        nviol += 1
+        txt = small.text() + "# property %s violated on the implementation: monitor clause '%s' at operation %d of the unshrunk case\n" % (pid, tag, pos)
         txt += "# implementation outputs: %s\n# model outputs:          %s\n" % (" | ".join(i2[small.name]), " | ".join(m2[small.name]))
         if small.name in f2:
             txt += "# fault: %s\n" % (f2[small.name][1],)
